@@ -161,11 +161,16 @@ qf_insert_harness!(c13_qf_insert_b2r1_f4, 4, 2, 2, 1, 4, 10);
 qf_insert_harness!(c13_qf_insert_b2r1_f5, 4, 2, 2, 1, 5, 10);
 qf_insert_harness!(c13_qf_insert_b2r1_f6, 4, 2, 2, 1, 6, 10);
 qf_insert_harness!(c13_qf_insert_b2r1_f7, 4, 2, 2, 1, 7, 10);
+// bq = 1 (2 slots), br = 1: all 4 fingerprints, all 16 sets
+qf_insert_harness!(c13_qf_insert_b1r1_f0, 2, 2, 1, 1, 0, 6);
+qf_insert_harness!(c13_qf_insert_b1r1_f1, 2, 2, 1, 1, 1, 6);
+qf_insert_harness!(c13_qf_insert_b1r1_f2, 2, 2, 1, 1, 2, 6);
+qf_insert_harness!(c13_qf_insert_b1r1_f3, 2, 2, 1, 1, 3, 6);
 // bq = 1 (2 slots), br = 2
-qf_insert_harness!(c13_qf_insert_b1r2_f0, 2, 4, 1, 2, 0, 10);
-qf_insert_harness!(c13_qf_insert_b1r2_f3, 2, 4, 1, 2, 3, 10);
-qf_insert_harness!(c13_qf_insert_b1r2_f5, 2, 4, 1, 2, 5, 10);
-qf_insert_harness!(c13_qf_insert_b1r2_f6, 2, 4, 1, 2, 6, 10);
+qf_insert_harness!(c13_qf_insert_b1r2_f0, 2, 4, 1, 2, 0, 6);
+qf_insert_harness!(c13_qf_insert_b1r2_f3, 2, 4, 1, 2, 3, 6);
+qf_insert_harness!(c13_qf_insert_b1r2_f5, 2, 4, 1, 2, 5, 6);
+qf_insert_harness!(c13_qf_insert_b1r2_f6, 2, 4, 1, 2, 6, 6);
 
 // new() == enc(empty)
 harness! {
@@ -217,28 +222,45 @@ fn step_union<const N: usize, const R: usize>(bq: usize, br: usize) {
         assert!(same::<N>(&a, &lu), "C06 C01 union equals the canonical layout of A ∪ B");
     }
 }
-harness! { #[kani::unwind(10)] fn c06_qf_union_b1r1() { step_union::<2, 2>(1, 1); } }
-harness! { #[kani::unwind(10)] fn c06_qf_union_b1r2() { step_union::<2, 4>(1, 2); } }
+harness! { #[kani::unwind(6)] fn c06_qf_union_b1r1() { step_union::<2, 2>(1, 1); } }
+harness! { #[kani::unwind(6)] fn c06_qf_union_b1r2() { step_union::<2, 4>(1, 2); } }
 harness! { #[kani::unwind(12)] fn c06_qf_union_b2r1() { step_union::<4, 2>(2, 1); } }
 
-// clear() == fresh, from any canonical state
+// clear() == fresh, from ARBITRARY array contents (16-bit remainders: one block holds the 4 slots)
 harness! {
-    #[kani::unwind(10)]
+    #[kani::unwind(8)]
     fn c19_qf_clear_is_fresh() {
-        let mask: u32 = any();
-        assume(mask < 256 && popcount(mask) <= 4);
-        let l0 = enc::<4, 2>(mask);
-        let mut qf = build::<4>(2, 1, &l0);
-        qf.clear();
-        let fresh = QF::with_params_and_hash(2, 1, IdBH);
+        let mut qf = QF::with_params_and_hash(2, 16, IdBH);
+        let len0 = qf.remainders.len();
         let mut s = 0;
-        let mut ok = qf.n_elements == 0 && qf.is_empty();
+        while s < 4 {
+            qf.is_occupied.set(s, any());
+            qf.is_continuation.set(s, any());
+            qf.is_shifted.set(s, any());
+            let r: u16 = any();
+            qf.remainders.set(s as u64, r as usize);
+            s += 1;
+        }
+        qf.n_elements = any();
+        qf.clear();
+        let fresh = QF::with_params_and_hash(2, 16, IdBH);
+        let mut s = 0;
+        let mut ok = qf.n_elements == 0 && qf.is_empty() && qf.len() == 0;
         while s < 4 {
             ok = ok && qf.is_occupied[s] == fresh.is_occupied[s] && qf.is_continuation[s] == fresh.is_continuation[s]
                 && qf.is_shifted[s] == fresh.is_shifted[s] && qf.remainders.get(s as u64) == fresh.remainders.get(s as u64);
             s += 1;
         }
         assert!(ok, "C19 clear() restores every array and the counter of a fresh filter");
-        assert!(qf.remainders.len() == fresh.remainders.len(), "C19 C11 clear keeps the table size");
+        assert!(qf.remainders.len() == len0 && qf.is_occupied.len() == 4, "C19 C11 clear keeps the table size");
+    }
+}
+
+// C11: table sizes of a fresh filter
+harness! {
+    fn c11_qf_table_sizes() {
+        let qf = QF::with_params_and_hash(3, 5, IdBH);
+        assert!(qf.is_occupied.len() == 8 && qf.is_continuation.len() == 8 && qf.is_shifted.len() == 8, "C11 three bit arrays of 2^bq bits");
+        assert!(qf.remainders.len() >= 8 && succinct::BitVec::block_len(&qf.remainders) == 1, "C11 remainders: ceil(2^bq * br / 64) blocks");
     }
 }
